@@ -19,4 +19,5 @@ import (
 	_ "verif/props/c17"
 	_ "verif/props/c18"
 	_ "verif/props/c19"
+	_ "verif/props/c20"
 )
